@@ -30,7 +30,7 @@ P, W, F = "parser-state-explorer", "wire-explorer", "filterset-explorer"
 BUILT = {
     "C01": _b(P, "explicit-state BFS over token words on the real parser vs reference PDA + exhaustive grammar-directed products and single-token edits",
               "every word up to the scenario depth over alphabets covering every token class, command and tag (with and without require), every nested test "
-              "expression to depth 3/4, every tag subset and order of every command, every single-token edit of the valid forms, every comment body up to "
+              "expression to depth 3/4, every tag subset and order of every command, every single-token edit of the valid forms, every tag any command knows in tag position of every other command, every comment body up to "
               "a length, every require structure (one or two require commands, repeated / padded / case-variant / unknown names) before each "
               "extension use, scripts of n trivial commands around every power of two and ten in size, every single-byte edit of a 15-script corpus, all under several layouts, is executed on the real Parser and judged by an independent RFC 5228 recogniser + frozen table; the "
               "state abstraction is audited by an undeduplicated one-step bisimulation run", _PARSER_NOTE, "3 C01, 8"),
@@ -61,7 +61,7 @@ BUILT = {
               "parser and on one that has just accepted the full script, and must be rejected with the exact 'extension not loaded' message", _PARSER_NOTE, "3 C07"),
     "C08": _b(W, "exhaustive product of operations x hostile argument strings + sweep of every argument length; strict RFC 5804 command parser on the captured bytes",
               "every string up to the length bound over a hostile alphabet plus look-alikes in every argument position (incl. unencodable lone surrogates: refused with nothing written) and every argument length in "
-              "0..9000/70000, plain and with characters that need escaping; pairs of calls in one process (a body, then a name equal to its literal encoding, and the reverse); the bytes written must parse as exactly one command of the intended verb decoding to the caller's values", _WIRE_NOTE, "3 C08"),
+              "0..9000/70000, plain and with characters that need escaping; pairs of calls in one process (a body, then a name equal to its literal encoding, and the reverse), refused calls followed by another command, every operation after a virtual idle time of a minute / hour / day / decades (clock seam); the bytes written must parse as exactly one command of the intended verb decoding to the caller's values", _WIRE_NOTE, "3 C08"),
     "C09": _b(W, "exhaustive product of operations x status reply shapes, ordered pairs of replies on one client, single NO/BYE fault at each step of multi-step operations",
               "every operation x every status reply shape; every pair of shapes on the same client; status lines at the size limits of their parts under segmentation; NO/BYE at each step of connect (with/without STARTTLS) and "
               "emulated rename; result, errcode, errmsg, unread bytes and exception class are judged against the reply", _WIRE_NOTE, "3 C09"),
@@ -73,18 +73,18 @@ BUILT = {
               "every reachable set (history depth bound; loaded through a fresh and through a just-failed Parser) and every name/description up to the length bound under 4 marker pairs (one non-ASCII) is "
               "rendered, parsed, reloaded and compared; the reloaded rendering must be a fixed point", _FACTORY_NOTE, "3 C11"),
     "C12": _b(F, "all operation sequences up to a bound without dedup + BFS with dedup over the real FiltersSet vs reference list model",
-              "every sequence of <= 3/4 of 66 events (str and bytes names, contents that are bare parsed actions) and a deduplicated BFS to depth 6/12, the same events on a set sharing its parse result with an untouched twin; after every event return value, order, "
+              "every sequence of <= 3/4 of ~95 events (str and bytes names, canonically equivalent names, contents that are bare parsed actions, definitions refused while they are built) and a deduplicated BFS to depth 6/12, the same events on a set sharing its parse result with an untouched twin; after every event return value, order, "
               "flags, is_filter_disabled, filter_exists, wrapper structure and getfilter content are compared with the list model", _FACTORY_NOTE, "3 C12"),
     "C13": _b(P, "exhaustive histories over an object pool; differential vs pristine forked interpreters",
               "every history of <= 3/4 events on two reused parsers, fresh parsers and two FiltersSets (incl. from_parser_result on the shared parser, "
-              "mixed-case tags, commands derived from concrete built-ins registered in every process); each outcome is compared with the projection onto the same object run in a freshly forked pristine interpreter",
+              "mixed-case tags, parse_file, commands derived from concrete built-ins registered in every process); trees handed out earlier are read again after the last event; each outcome is compared with the projection onto the same object run in a freshly forked pristine interpreter",
               _FACTORY_NOTE, "3 C13"),
     "C14": _b(W, "exhaustive product of initial stores x name sets x fault placements x bodies against an executable reference server; store-level invariant",
               "19 initial stores x 7 bodies x 3 name sets (ASCII, NFC/NFD twins, case twins) x every single and pair of faults on the five verbs of the "
-              "emulation x four wordings of the server's completions, every single recv cut in the first 170/400 reply bytes with quoted / literal names; the reference server's store before/after is judged (nothing lost, nothing else touched, True implies renamed)", _WIRE_NOTE, "3 C14"),
+              "emulation x four wordings of the server's completions, every single recv cut in the first 170/400 reply bytes with quoted / literal names, a ladder of bodies with k escaped characters (k around every power of two to 1000); the reference server's store before/after is judged (nothing lost, nothing else touched, True implies renamed)", _WIRE_NOTE, "3 C14"),
     "C15": _b(W, "explicit-state BFS over operation histories (state = reference server store) x deviation-bounded DFS over server choices and recv cuts",
               "all histories of 19 events (incl. a 1024-octet name with quotes) to depth 3/4 from 4 stores with and without VERSION; every server choice (encodings, status text forms, quota/NO "
-              "outcomes, recv cuts incl. between CR and LF) up to 1/2 deviations; a second client object working between the steps; returned lists edited by the caller; each result must equal the reference server's own answer, a reported success must be true of its store, no unread bytes, no protocol violation",
+              "outcomes, recv cuts incl. between CR and LF) up to 1/2 deviations; a second client object working between the steps; returned lists edited by the caller; a product of names (octet surplus x marker look-alike tails x active position x encoding); each result must equal the reference server's own answer, a reported success must be true of its store, no unread bytes, no protocol violation",
               _WIRE_NOTE, "3 C15"),
     "C16": _b(W, "exhaustive product of announced SASL lists x authmech x credentials x verdict x challenge realm; payload decoded and recomputed per mechanism RFC",
               "all subsets/orders of 7 mechanism names x 7 authmech arguments x 8 credential triples x OK/NO x completion with/without SASL final data, every credential length 0..160/1300, DIGEST-MD5 with and without realm alternating "
@@ -97,7 +97,7 @@ BUILT = {
               "with the reference's first invalidating token (exact for tokens wrong in themselves, lower bound otherwise) and must not change under 4 suffixes nor on a parser that has just refused another script",
               _PARSER_NOTE, "3 C18"),
     "C19": _b(F, "exhaustive product of supported forms x values with commas/spaces/brackets/non-ASCII; read-back differential on original / disabled / reloaded sets and after update-rename",
-              "every supported condition and action form (incl. duplicates, list + plain-string address arguments, long values, results edited in place by the caller) x every value up to the length bound x anyof/allof; get_filter_conditions/"
+              "every supported condition and action form (incl. duplicates, list + plain-string address arguments, long values, results edited in place by the caller, neighbouring filters edited after the filter was built) x every value up to the length bound x anyof/allof; get_filter_conditions/"
               "actions/matchtype must equal what was supplied on the original, the disabled and the reloaded set", _FACTORY_NOTE, "3 C19"),
     "C20": _b(P, "exhaustive product of generated argument definitions x explicit-state BFS over each definition's alphabet vs reference PDA built from the same definition; re-registration and derived-class sequences",
               "every definition of the documented shape within the bounds is registered with add_commands under a fresh name (some containing the word 'command') through every call shape (class, list, tuple, set, generator, iterator); all uses up to the depth are "
